@@ -13,7 +13,7 @@ HAND = [
     "CC(=O)[O-].[Na+].Cl>>CC(=O)O", "O=[N+]([O-])c1ccccc1>>Nc1ccccc1", "Nc1ccccc1>>O=[N+]([O-])c1ccccc1",
     "CS(=O)(=O)Cl.OCC>>CS(=O)(=O)OCC", "CCOC(=O)C>>CC(=O)O.CCO", "CC#N.O>>CC(N)=O", "OO>>O", "O>>OO", "[Na+].[Cl-]>>[Na+]",
     "CC(C)=O.[BH4-]>>CC(C)O", "C1CCCCC1=O>>C1CCCCC1O", "OC1CCCCC1>>O=C1CCCCC1", "CC[O-].[Na+]>>CCO", "CCO.[Na]>>CC[O-].[Na+]",
-    "CCO.[K]>>CC[O-].[K+]", "OCCO>>ClCCCl", "CCO.O>>CCCC", "OCCO.O>>BrCCBr", "OC(O)CO>>ClCC(Cl)Cl",
+    "CCO.[K]>>CC[O-].[K+]", "CC>>O", "CCCCCC>>P", "c1ccccc1>>N", "OCCO>>ClCCCl", "CCO.O>>CCCC", "OCCO.O>>BrCCBr", "OC(O)CO>>ClCC(Cl)Cl",
     "C=CC.[2H][2H]>>[2H]CC([2H])C", "[2H]C([2H])([2H])O.CC(=O)Cl>>[2H]C([2H])([2H])OC(C)=O", "CC(=O)C.[2H][2H]>>CC(O)C", "[2H]O[2H].CCBr>>CCO[2H]",
     "[13CH3]Br.O>>[13CH3]O", "CC(=O)OC.[18OH2]>>CC(=O)[18OH]", "C[C@H](Br)CC.O>>C[C@@H](O)CC", "F/C=C/F.[H][H]>>FCCF", "CC(=O)C.[H-]>>CC(C)[O-]", "CC=O.[Li]>>CC[O-].[Li+]", ">>", "CC>>", ">>CC", "C.C>>CC", "CC>>C.C",
 ]
